@@ -36,7 +36,8 @@ def sh(cmd, cwd=None, env=None, timeout=1800):
     return r.returncode, r.stdout, r.stderr
 
 
-def ingest(src, pid, n):
+def ingest(src, pid, n, dest=None):
+    dest = dest or n
     patch = os.path.join(src, "patch%s.diff" % n)
     demo = os.path.join(src, "demo%s.py" % n)
     notes = os.path.join(src, "notes.md")
@@ -64,7 +65,7 @@ def ingest(src, pid, n):
         "ACCEPT" if ok else "REJECT", pid, n, rc0, rc_t, out_t.strip().splitlines()[-1:] , rc1))
     if not ok:
         return False
-    d = os.path.join(SEEDED, "%s-%s" % (pid, n))
+    d = os.path.join(SEEDED, "%s-%s" % (pid, dest))
     os.makedirs(d, exist_ok=True)
     shutil.copy(patch, os.path.join(d, "patch.diff"))
     shutil.copy(demo, os.path.join(d, "demo.py"))
@@ -74,7 +75,8 @@ def ingest(src, pid, n):
     meta = {"property": pid, "source": "independent sub-agent given only the property text and a scratch worktree",
             "files_touched": touched, "needs_to_manifest": "see notes.md (section for change %s)" % n,
             "verified_by_me": ran,
-            "how_to_run": "tools/seed.py run %s-%s   (applies patch.diff to a scratch worktree of /repo HEAD, runs the checks with TV_REPO)" % (pid, n)}
+            "round": 1 if str(dest) in ("1", "2") else 2,
+            "how_to_run": "tools/seed.py run %s-%s   (applies patch.diff to a scratch worktree of /repo HEAD, runs the checks with TV_REPO)" % (pid, dest)}
     with open(os.path.join(d, "meta.json"), "w") as f:
         json.dump(meta, f, indent=1)
     return True
@@ -142,7 +144,7 @@ def matrix():
 if __name__ == "__main__":
     a = sys.argv[1:]
     if a and a[0] == "ingest":
-        sys.exit(0 if ingest(a[1], a[2], a[3]) else 1)
+        sys.exit(0 if ingest(a[1], a[2], a[3], a[4] if len(a) > 4 else None) else 1)
     elif a and a[0] == "run":
         props, tier, names = None, "quick", []
         i = 1
